@@ -254,9 +254,11 @@ func anyMethods() []anyMethod {
 	return out
 }
 
+var c08MaxLen = 4
+
 func c08Enum() {
 	ims := intMethods()
-	for L := 0; L <= 4; L++ {
+	for L := 0; L <= c08MaxLen; L++ {
 		for opt := 0; opt < 4; opt++ {
 			for _, withCap := range []bool{false, true} {
 				for _, m := range ims {
@@ -651,7 +653,10 @@ func c08RunElem(c *core.Ctx, n int) {
 	c.NontrivialStr(core.JSON(desc))
 }
 
-func c08Tier(string) (a, b, e int) {
+func c08Tier(tier string) (a, b, e int) {
+	if tier == "thorough" {
+		c08MaxLen = 7 // a process serves one tier only
+	}
 	c08Once.Do(c08Enum)
 	return len(c08Idx), len(c08AnyM), c08Elems
 }
@@ -688,7 +693,7 @@ func init() {
 			}
 			c.Notes["any_methods"] = strings.Join(names, ",")
 		},
-		Rule: "index part (exhaustive): every Stack method with an int parameter (found by reflection) x index values {MinInt, MinInt+1, -Len-2..Len+2, MaxInt-1, MaxInt} (pairs for Swap/Less) x stacks of length 0..4 (element 1 a nested stack) x 4 negative/forward index option sets x {capacity, none}; " +
+		Rule: "index part (exhaustive): every Stack method with an int parameter (found by reflection) x index values {MinInt, MinInt+1, -Len-2..Len+2, MaxInt-1, MaxInt} (pairs for Swap/Less) x stacks of length 0..4 (quick) / 0..7 (thorough) (element 1 a nested stack) x 4 negative/forward index option sets x {capacity, none}; " +
 			"value part (exhaustive): every Stack/Condition method with an `any`/`...any` parameter (found by reflection) x a 55-entry catalogue of awkward values (untyped nil, typed nil pointers of depth 1-2 incl. to Stack/alias/Condition, zero Stack/Condition/aliases, funcs, chans, maps, NaN/Inf, private-field structs, slices/arrays, unsafe pointers ...), plus each value in four roles (pushed, inserted+replaced, condition expression/keyword, comparand pair). " +
 			"Oracle: no panic; list-model verdict for Index/Remove/Replace/Swap/Insert/Traverse (failure and a byte-identical recursive snapshot when the index addresses nothing; option-mapped targets otherwise); afterwards the configuration slot is intact and a 17-step observer/maintenance battery (Index*, String, Unmarshal, IsEqual(copy), Traverse, Less, Defrag, Reveal ...) returns normally. " +
 			"non-trivial = index case with at least one index outside 0..Len-1, or any value/role case that completed all checks; distinct = hash of the case tuple.",
